@@ -19,6 +19,8 @@ import Dippy.Model.Sql
 import Dippy.Model.PyCli
 import Dippy.Lemmas.RoundTrip
 import Dippy.Model.PyAst
+import Dippy.Model.PyFile
+import Dippy.Generated.PyCli
 import Dippy.Generated.PyAst
 
 open Lean Dippy
@@ -548,6 +550,33 @@ def handle (j : Json) : R Json := do
       ("violations", Json.arr (vs.map fun v => Json.arr #[Json.num (v.line : Nat), Json.str v.kind, Json.str v.detail]).toArray),
       ("roots", Json.arr ((PyAst.importRoots tree).map Json.str).toArray),
       ("first", optStrJson (PyAst.firstReason T true tree))]
+  | "py_file" =>
+    -- analyze_python_file over recorded file facts
+    let f := j.getObjValD "facts"
+    let tree ← match f.getObjValD "tree" with
+      | .null => pure none
+      | t => do pure (some (← toPNode t))
+    let sh := (arrD f "shadowed").toList.map fun e =>
+      ((e.getArrVal? 0 |>.toOption.bind (·.getStr?.toOption)).getD "", (e.getArrVal? 1 |>.toOption.getD Json.null) == Json.bool true)
+    let ff : PyFile.FileFacts :=
+      { pathExists := (f.getObjValD "exists") == Json.bool true
+        isFile := (f.getObjValD "is_file") == Json.bool true
+        suffix := strD f "suffix" ""
+        size := match f.getObjValD "size" with
+          | .num n => some n.mantissa.toNat
+          | _ => none
+        source := match f.getObjValD "source" with
+          | .str s => some s
+          | _ => none
+        tree := tree
+        shadowed := fun r => ((sh.find? (·.1 == r)).map (·.2)).getD false }
+    let T : PyAst.Tables :=
+      { safeModules := Generated.PyAst.safeModules, dangerousModules := Generated.PyAst.dangerousModules,
+        dangerousBuiltins := Generated.PyAst.dangerousBuiltins, dangerousAttrs := Generated.PyAst.dangerousAttrs,
+        reflectionAttrs := Generated.PyAst.reflectionAttrs, moduleAliasAttrs := Generated.PyAst.moduleAliasAttrs }
+    return (match PyFile.analyzeFile T Generated.PyCli.scriptSuffixes Generated.PyCli.sizeLimit PyFile.cookieNameChar ff with
+      | .safe => Json.mkObj [("safe", true)]
+      | .refused r => Json.mkObj [("safe", false), ("reason", Json.str r)])
   | "py_runs" =>
     return (match PyCli.pythonRuns false (← strList (j.getObjValD "args")) with
       | .interactive => Json.mkObj [("runs", "interactive")]
